@@ -102,3 +102,34 @@ package linkedliststack
 //@     invariant forall j :: old(iterator.index) < j && j <= iterator.index && j < len(Seq(iterator.stack)) ==> !f(j, Seq(iterator.stack)[j])
 //@     decreases len(Seq(iterator.stack)) - iterator.index
 
+// ---- JSON (C11 round trip, C12 replace / sound / atomic) ----
+
+//@ func Stack.ToJSON
+//@   requires Inv(stack)
+//@   modifies nothing
+//@   ensures [C11 C17 C18] result1 == nil && fresh(arr(result0)) && jarr_kind(result0, stack.list.first.value) == 3 && jarr_len(result0, stack.list.first.value) == len(Seq(stack))
+//@     && (forall i :: 0 <= i && i < len(Seq(stack)) ==> jarr_at(result0, i, stack.list.first.value) == Seq(stack)[i])
+
+//@ func Stack.MarshalJSON
+//@   requires Inv(stack)
+//@   modifies nothing
+//@   ensures [C11 C17 C18] result1 == nil && fresh(arr(result0)) && jarr_kind(result0, stack.list.first.value) == 3 && jarr_len(result0, stack.list.first.value) == len(Seq(stack))
+//@     && (forall i :: 0 <= i && i < len(Seq(stack)) ==> jarr_at(result0, i, stack.list.first.value) == Seq(stack)[i])
+
+//@ func Stack.FromJSON
+//@   requires Inv(stack)
+//@   modifies stack.list.first, stack.list.last, stack.list.size, stack.list.nodes
+//@   modifies each e like stack.list.first where e.owner == stack.list : e.next
+//@   ensures [C12 C17] Inv(stack) && (result == nil <==> jarr_kind(data, stack.list.first.value) >= 2)
+//@   ensures [C12] atomic: result != nil ==> Seq(stack) == old(Seq(stack))
+//@   ensures [C11 C12] loaded: jarr_kind(data, stack.list.first.value) == 3 ==> len(Seq(stack)) == jarr_len(data, stack.list.first.value) && (forall i :: 0 <= i && i < len(Seq(stack)) ==> Seq(stack)[i] == jarr_at(data, i, stack.list.first.value))
+//@   ensures [C12] null: jarr_kind(data, stack.list.first.value) == 2 ==> len(Seq(stack)) == 0
+
+//@ func Stack.UnmarshalJSON
+//@   requires Inv(stack)
+//@   modifies stack.list.first, stack.list.last, stack.list.size, stack.list.nodes
+//@   modifies each e like stack.list.first where e.owner == stack.list : e.next
+//@   ensures [C12 C17] Inv(stack) && (result == nil <==> jarr_kind(bytes, stack.list.first.value) >= 2)
+//@   ensures [C12] atomic: result != nil ==> Seq(stack) == old(Seq(stack))
+//@   ensures [C11 C12] loaded: jarr_kind(bytes, stack.list.first.value) == 3 ==> len(Seq(stack)) == jarr_len(bytes, stack.list.first.value) && (forall i :: 0 <= i && i < len(Seq(stack)) ==> Seq(stack)[i] == jarr_at(bytes, i, stack.list.first.value))
+//@   ensures [C12] null: jarr_kind(bytes, stack.list.first.value) == 2 ==> len(Seq(stack)) == 0
